@@ -42,7 +42,7 @@ def _fn_f(x):
 C_CARRIERS = {
     'list': list, 'tuple': tuple, 'USeq': U.USeq, 'UMSeq': U.UMSeq, 'GL': U.GL, 'deque': collections.deque,
     'set': set, 'frozenset': frozenset, 'USet': U.USet, 'UMSet': U.UMSet, 'UColl': U.UColl, 'URev': U.URev,
-    'UCont': U.UCont, 'UIter': U.UIter, 'GOut': U.GOut, 'DupSeqA': U.DupSeqA, 'DupSeqB': U.DupSeqB, 'DupSeqC': U.DupSeqC, 'gen': _gen, 'iter': iter, 'Counter': collections.Counter,
+    'UCont': U.UCont, 'UIter': U.UIter, 'GOut': U.GOut, 'FalsyList': U.FalsyList, 'DupSeqA': U.DupSeqA, 'DupSeqB': U.DupSeqB, 'DupSeqC': U.DupSeqC, 'gen': _gen, 'iter': iter, 'Counter': collections.Counter,
 }
 C_SRC = {'deque': 'collections.deque', 'gen': '(lambda it: (i for i in it))', 'Counter': 'collections.Counter'}
 M_CARRIERS = {
@@ -51,7 +51,7 @@ M_CARRIERS = {
     'OrderedDict': collections.OrderedDict,
     'ChainMap': lambda pairs: collections.ChainMap(dict(pairs)),
     'Counter': lambda pairs: collections.Counter(dict(pairs)),
-    'UMap': U.UMap, 'UMMap': U.UMMap, 'GReg': U.GReg,
+    'UMap': U.UMap, 'UMMap': U.UMMap, 'GReg': U.GReg, 'FalsyDict': U.FalsyDict,
     'mappingproxy': lambda pairs: types.MappingProxyType(dict(pairs)),
 }
 M_SRC = {
@@ -323,9 +323,9 @@ POOL = [V('1'), V('True'), V("'a'"), V('1.5'), V('None'), V("b'x'"), V('1j'), V(
         ('raw', 'path'), ('raw', 'builtin-len'), ('c', 'list', (('c', 'list', (V("'a'"),)),)), ('c', 'tuple', (V("'a'"), V('1'))),
         ('m', 'dict', ((V("'a'"), V('1')), (V("'b'"), V("'a'"))))]
 
-_C1_CARRIERS_TRY = ['list', 'tuple', 'USeq', 'UMSeq', 'GL', 'deque', 'set', 'frozenset', 'USet', 'UMSet', 'UColl',
+_C1_CARRIERS_TRY = ['list', 'tuple', 'USeq', 'UMSeq', 'FalsyList', 'GL', 'deque', 'set', 'frozenset', 'USet', 'UMSet', 'UColl',
                     'URev', 'UCont', 'UIter', 'gen', 'iter']
-_M_CARRIERS_TRY = ['dict', 'defaultdict', 'OrderedDict', 'ChainMap', 'Counter', 'UMap', 'UMMap', 'mappingproxy']
+_M_CARRIERS_TRY = ['dict', 'FalsyDict', 'defaultdict', 'OrderedDict', 'ChainMap', 'Counter', 'UMap', 'UMMap', 'mappingproxy']
 _UNORDERED = {'set', 'frozenset'}
 
 
